@@ -43,6 +43,7 @@ import (
 	"github.com/bytom/bytom/protocol/bc/types"
 	"github.com/bytom/bytom/protocol/state"
 	"github.com/bytom/bytom/protocol/validation"
+	"verifharness/fraglib"
 	. "verifharness/hlib"
 )
 
@@ -981,5 +982,9 @@ func run(c *Ctx) error {
 	}
 	c.Stats.Rule = "each case is a distinct branch history (initial votes map, status, timestamp; 0-10 blocks with veto inputs and vote outputs over 1-16 keys with frequent ties, prefixes, vetoes equal to / above the tally, wrap-around amounts in the wild stream), consensus parameters and 7-12 block times (slot boundaries, +-1 ms, before the start); a case is non-trivial when the effective validator set is non-empty and the history is not empty; every case runs the real NewCheckpoint/Increase/AllValidators/EffectiveValidators/GetValidator 20 times and is compared with the declarative oracle and with the Coq model"
 	header := "From Coq Require Import List NArith.\nFrom Verif Require Import Outcome Cmp.\nFrom C15 Require Import Model Run.\nImport ListNotations.\nOpen Scope N_scope.\n" + keyDefs.String()
-	return c.Cases.Write(c.Out, header, "case_result", "case_eqb")
+	if err := c.Cases.Write(c.Out, header, "case_result", "case_eqb"); err != nil {
+		return err
+	}
+	// translator cross-check: the generated getValidatorOrder (C15/Tie.v) against the compiled one
+	return fraglib.ValidatorOrder(c)
 }
